@@ -109,7 +109,10 @@ class Sym:
     def exp(a): return Sym(('exp', a))
     def sqrt(a): return Sym(('sqrt', a))
     @staticmethod
-    def app(fname, *args): return Sym(('app', fname, tuple(lit(a) for a in args)))     # uninterpreted function application
+    def app(fname, *args):
+        """uninterpreted function application; an argument may be a list of numbers (emitted as a Lean list)"""
+        conv = lambda a: Sym(('list', tuple(lit(x) for x in a))) if isinstance(a, (list, tuple)) else lit(a)
+        return Sym(('app', fname, tuple(conv(a) for a in args)))
     def __lt__(a, b): return Cond(('lt', a, lit(b)))
     def __gt__(a, b): return Cond(('lt', lit(b), a))
     def __le__(a, b): return Cond(('le', a, lit(b)))
@@ -186,6 +189,7 @@ def lean_expr(s, prim='P'):
     if k == 'pow': return f'({prim}.pow {lean_expr(t[1], prim)} {lean_expr(t[2], prim)})'
     if k == 'abs': return f'(absK {lean_expr(t[1], prim)})'
     if k in ('log', 'exp', 'sqrt'): return f'({prim}.{k} {lean_expr(t[1], prim)})'
+    if k == 'list': return '[' + ', '.join(lean_expr(a, prim) for a in t[1]) + ']'
     if k == 'app': return '(' + t[1] + ''.join(' ' + lean_expr(a, prim) for a in t[2]) + ')'
     if k == 'lt': return f'{lean_expr(t[1], prim)} < {lean_expr(t[2], prim)}'
     if k == 'le': return f'{lean_expr(t[1], prim)} ≤ {lean_expr(t[2], prim)}'
